@@ -26,7 +26,7 @@ type config struct {
 	checker map[string]bool // nil: decided by flags; used for the in-process expectation when set
 }
 
-var lineRE = regexp.MustCompile(`^(/.*?\.go):(\d+):(\d+): (\w+): (.*)$`)
+var lineRE = regexp.MustCompile(`^(/[^:]+):(\d+)(?::(\d+))?: (\w+): (.*)$`)
 
 type diag struct {
 	File    string
@@ -77,6 +77,12 @@ func workspace(base string) {
 	w("b/b.go", body("b", "B"))
 	w("b/b_x_test.go", "package b_test\n\nimport \"ws/b\"\n\n//bad comment\nfunc UseB(IN int) int {\n\tx := b.B(IN, nil, \"\")\n\tx = x + 1\n\treturn x\n}\n")
 	w("c/sub/c.go", body("sub", "C"))
+	// the same base file name in several packages
+	w("a/util.go", "package a\n\nfunc utilA(IN int) int { return IN }\n")
+	w("b/util.go", "package b\n\nfunc utilB(IN int) int { return IN }\n")
+	w("c/sub/util.go", "package sub\n\nfunc utilC(IN int) int { return IN }\n")
+	// positions after //line directives (generated code): all front-ends must print the adjusted position
+	w("e/gen.go", "package e\n\nfunc before(IN int) int { return IN }\n\n//line greet.tmpl:40\nfunc after(IN int, xs []int) int {\n\tif len(xs) >= 0 {\n\t\tIN = IN + 1\n\t}\n\treturn IN\n}\n\n/*line other.y:7:3*/ func third(IN int) int { return IN }\n")
 	w("d/d.go", "package d\n\nimport \"strings\"\n\nfunc D(s string) bool { return strings.Index(s, \"x\") >= 0 }\n\nfunc E(t []int) []int { return t[:] }\n")
 }
 
